@@ -106,13 +106,12 @@ pub enum Form {
 #[derive(Clone, Debug)]
 pub struct Plant {
     pub kind: &'static str,
-    pub family: &'static str,
+    /// the mismatch; may refer to the blob `Zqb { zf: int, zg: str }` and to the helper functions
+    /// `zqg<r> :: pu zqa: int, zqb: str -> <r>`, which the check declares at top level when the text mentions them
     pub bad: String,
+    /// the legal twin
     pub good: String,
     pub form: Form,
-    pub needs_blob: bool,
-    /// helper top-level function `zqg<r> :: pu zqa: int, zqb: str -> <r>` is called
-    pub needs_gfn: Option<P>,
 }
 
 /// what the site allows
@@ -180,18 +179,8 @@ pub fn gfn_name(r: P) -> &'static str {
         P::Bool => "zqgb",
     }
 }
-/// body value of the helper function for each return type (parameters are `zqa: int, zqb: str`)
-pub fn gfn_body(r: P) -> &'static str {
-    match r {
-        P::Int => "zqa",
-        P::Float => "1.5",
-        P::Str => "zqb",
-        P::Bool => "true",
-    }
-}
-
 fn plant(kind: &'static str, bad: String, good: String, form: Form) -> Plant {
-    Plant { kind, family: family_of(kind), bad, good, form, needs_blob: false, needs_gfn: None }
+    Plant { kind, bad, good, form }
 }
 
 fn cmp_legal(a: P, b: P) -> bool {
@@ -378,9 +367,7 @@ pub fn make(kind: &'static str, want: Option<&Ty>, env: &Env, s: &mut Sel) -> Op
                 } else {
                     (format!("{}({})", f, args), format!("{}(1, \"s\")", f))
                 };
-                let mut p = plant(kind, bad, good, Form::Expr(Some(r.ty())));
-                p.needs_gfn = Some(r);
-                Some(p)
+                Some(plant(kind, bad, good, Form::Expr(Some(r.ty()))))
             }
         }
         "param-annot" => {
@@ -483,9 +470,7 @@ pub fn make(kind: &'static str, want: Option<&Ty>, env: &Env, s: &mut Sel) -> Op
                 let b = P::Str.other(s);
                 (format!("Zqb {{ zf: 1, zg: {} }}", b.lit(k)), "Zqb { zf: 1, zg: \"t\" }".to_string())
             };
-            let mut p = plant(kind, bad, good, Form::Expr(None));
-            p.needs_blob = true;
-            Some(p)
+            Some(plant(kind, bad, good, Form::Expr(None)))
         }
         "field-assign" => {
             if want.is_some() || !env.stmts || env.pure_ {
@@ -494,14 +479,12 @@ pub fn make(kind: &'static str, want: Option<&Ty>, env: &Env, s: &mut Sel) -> Op
             let head = "zq1 := Zqb { zf: 1, zg: \"t\" }";
             let (f, a) = if s.chance(1, 2) { ("zf", P::Int) } else { ("zg", P::Str) };
             let b = a.other(s);
-            let mut p = plant(
+            Some(plant(
                 kind,
                 format!("{}\nzq1.{} = {}", head, f, b.lit(k)),
                 format!("{}\nzq1.{} = {}", head, f, a.lit(k + 1)),
                 Form::Stmt,
-            );
-            p.needs_blob = true;
-            Some(p)
+            ))
         }
         "assign" => {
             if want.is_some() || !env.stmts || env.pure_ {
